@@ -136,12 +136,12 @@ class TwoEvaluators(Harness):
     entry_name = 'eval_expr ; eval_unit_name'
     loop_bound = 12
     _concrete = None
-    SHAPES = ['mul_const', 'frac_const', 'neg', 'add', 'sub', 'pow2', 'frac_units', 'mul_units', 'add_const_units', 'mod', 'pow3', 'pow-1', 'pow-2', 'constpow-3']
+    SHAPES = ['mul_const', 'frac_const', 'neg', 'add', 'sub', 'pow2', 'frac_units', 'mul_units', 'add_const_units', 'mod', 'pow3', 'pow-1', 'pow-2', 'constpow-3', 'frac_chain', 'frac_same', 'frac_mul_same']
 
     def __init__(self):
         self.name = 'conversion_target.two_evaluators_agree'
         self.describe = 'target trees over {Unit a, Unit b, Const c, Const k} with Mul, Frac, Neg, Add, Sub, Pow 2 / 3 / -1 / -2 / -3, Mod: value computed by eval_expr vs constant and unit map computed by eval_unit_name'
-        self.bounds = ['14 tree shapes of depth <= 2; a and b share one dimensionality where the shape adds them']
+        self.bounds = ['17 tree shapes of depth <= 3 (three with a unit name on both sides of a quotient); a and b share one dimensionality where the shape adds them']
         self.expect_classes = ['agree-or-refused']
 
     def build(self, ex, I):
@@ -162,6 +162,9 @@ class TwoEvaluators(Harness):
             'pow-1': lambda: expr_binop(ex, 'Pow', expr_mul(ex, [C, A]), expr_const(ex, rational(Fraction(-1)))),
             'pow-2': lambda: expr_binop(ex, 'Pow', expr_mul(ex, [C, A]), expr_const(ex, rational(Fraction(-2)))),
             'constpow-3': lambda: expr_mul(ex, [expr_binop(ex, 'Pow', C, expr_const(ex, rational(Fraction(-3)))), A]),
+            'frac_chain': lambda: expr_binop(ex, 'Frac', expr_binop(ex, 'Frac', expr_mul(ex, [C, A]), B), dup(B)),
+            'frac_same': lambda: expr_binop(ex, 'Frac', expr_mul(ex, [C, A, dup(A)]), expr_mul(ex, [K, dup(A)])),
+            'frac_mul_same': lambda: expr_mul(ex, [expr_binop(ex, 'Frac', A, B), dup(B), C]),
             'frac_units': lambda: expr_binop(ex, 'Frac', expr_mul(ex, [C, A]), expr_mul(ex, [K, B])),
             'mul_units': lambda: expr_mul(ex, [C, A, K, B]),
             'add_const_units': lambda: expr_binop(ex, 'Add', expr_mul(ex, [C, A]), expr_mul(ex, [K, A])),
@@ -230,9 +233,10 @@ class TwoEvaluators(Harness):
                'add': '%s + %s' % (A, B), 'sub': '%s - %s' % (A, B), 'pow2': '(%s %s)^2' % (C, A),
                'frac_units': '(%s %s) / (%s %s)' % (C, A, K, B), 'mul_units': '%s %s %s %s' % (C, A, K, B),
                'add_const_units': '(%s %s) + (%s %s)' % (C, A, K, A), 'mod': '(%s %s) mod (%s %s)' % (C, A, K, A),
-               'pow3': '(%s %s)^3' % (C, A), 'pow-1': '(%s %s)^-1' % (C, A), 'pow-2': '(%s %s)^-2' % (C, A), 'constpow-3': '(%s)^-3 %s' % (C, A)}[shape]
+               'pow3': '(%s %s)^3' % (C, A), 'pow-1': '(%s %s)^-1' % (C, A), 'pow-2': '(%s %s)^-2' % (C, A), 'constpow-3': '(%s)^-3 %s' % (C, A), 'frac_chain': '%s %s / %s / %s' % (C, A, B, B),
+               'frac_same': '(%s %s %s) / (%s %s)' % (C, A, A, K, A), 'frac_mul_same': '(%s / %s) %s %s' % (A, B, B, C)}[shape]
         # ask rink to convert a known quantity to the target and read the reply back
-        power = {'pow2': 2, 'frac_units': 0, 'mul_units': 2, 'pow3': 3, 'pow-1': -1, 'pow-2': -2}.get(shape, 1)
+        power = {'pow2': 2, 'frac_units': 0, 'mul_units': 2, 'pow3': 3, 'pow-1': -1, 'pow-2': -2, 'frac_chain': -1}.get(shape, 1)
         src = '1000 m^(%d)' % power if power else '1000'
         return [{'mode': 'query', 'text': '%s -> %s' % (src, txt)}, {'mode': 'query', 'text': txt}]
 
@@ -256,7 +260,11 @@ class TwoEvaluators(Harness):
         ok_value = (want is not None and x == want)
         # every unit named in these targets is the base unit itself, so the printed factor must be the target's value
         ok_factor = (factor == tv[0])
-        return (not (ok_value and ok_factor)), 'display %r: numeral %s, printed factor %s, but the target is worth %s' % (display, x, factor, tv[0])
+        power = {'pow2': 2, 'frac_units': 0, 'mul_units': 2, 'pow3': 3, 'pow-1': -1, 'pow-2': -2, 'frac_chain': -1}.get(inputs['shape'], 1)
+        shown = {k: int(e) for k, e in (parts.get('rawUnit') or {}).items() if int(e)}
+        ok_unit = shown == ({'meter': power} if power else {})
+        return (not (ok_value and ok_factor and ok_unit)), 'display %r: numeral %s, printed factor %s, printed unit %s; the target is worth %s meter^%d' % (
+            display, x, factor, shown, tv[0], power)
 
 
 def harnesses(tier):
